@@ -264,6 +264,15 @@ check_hmacs (size_t klen, size_t mlen, unsigned off)
   HMAC_SHA256_Buf (k, klen, m, mlen, got);
   n_cmp++;
   if (memcmp (want, got, 32)) viol ("hmac-sha256", "Buf mismatch keylen=%zu msglen=%zu", klen, mlen);
+  if (mlen >= 32)
+    {
+      /* in place, as alg-yescrypt-opt.c itself calls it: the digest replaces the head of the message */
+      unsigned char *ib, *im = place (m, mlen, (off * 3) & 15, &ib);
+      HMAC_SHA256_Buf (k, klen, im, mlen, im);
+      n_cmp++;
+      if (memcmp (want, im, 32)) viol ("hmac-sha256", "Buf in place (digest == message) mismatch keylen=%zu msglen=%zu", klen, mlen);
+      free (ib);
+    }
   HMAC_SHA256_CTX *hc = malloc (sizeof *hc);
   size_t cut = mlen ? rnd () % (mlen + 1) : 0;
   HMAC_SHA256_Init (hc, k, klen);
